@@ -25,30 +25,45 @@ from ..tlc import run_tlc
 from ..common import dumps, MachineryError
 from .. import c02_lib as L
 
-GROUPS = ['tensor', 'custom', 'discr1', 'discr2', 'pspace']
-NV_QUICK = {'tensor': 6, 'custom': 6, 'discr1': 4, 'discr2': 3, 'pspace': 4}
-NV_THOROUGH = {'tensor': 10, 'custom': 10, 'discr1': 6, 'discr2': 4, 'pspace': 6}
-DTYPES = {'R': ['float64', 'float32'], 'C': ['complex128', 'complex64']}
+GROUPS = ['tensor', 'small', 'custom', 'discr1', 'discr2', 'pspace']
+NV_QUICK = {'tensor': 6, 'small': 3, 'custom': 6, 'discr1': 3, 'discr2': 3, 'pspace': 3}
+NV_THOROUGH = {'tensor': 10, 'small': 4, 'custom': 10, 'discr1': 6, 'discr2': 4, 'pspace': 6}
+DTYPES = {'R': ['float64', 'float32', 'int64'], 'C': ['complex128', 'complex64']}
 
 
 # ------------------------------------------------------------------ concretisations
 def tiles_for(n):
-    return [1, (101 // n) + 1, (50001 // n) + 1]
+    """1, about 100 entries, the largest size <= 50 000 (THRESHOLD_MEDIUM itself for n = 2), just above it."""
+    n = max(n, 1)
+    return [1, (101 // n) + 1, 50000 // n, (50001 // n) + 1]
+
+
+def _mix(k):
+    """Deterministic spread of the secondary axes (weighting form, exponent form, construction route,
+    call spelling) over the list position k."""
+    return {'wform': ('value', 'instance', 'list')[k % 3], 'expform': ('float', 'int')[(k // 2) % 2],
+            'route': ('direct', 'direct', 'astype', 'field')[(k // 3) % 4], 'spell': (k + k // 4) % 2}
 
 
 def variants(group, fld, desc, seed):
     """Ordered list of concretisation choices for a case family; essential ones first."""
     dts = DTYPES[fld]
+    f64, f32 = dts[0], dts[1]
+    ints = dts[2:]
+    V = L.Variant
     out, rest = [], []
     if group == 'tensor':
-        t1, t100, tbig = tiles_for(desc['n'])
-        ess = [(dts[0], t1, '1d', 'C', 'C', 'C'), (dts[0], tbig, '1d', 'C', 'C', 'C'), (dts[0], tbig, '2d', 'F', 'F', 'F'),
-               (dts[1], tbig, '1d', 'C', 'C', 'C'), (dts[0], t100, '2d', 'F', 'C', 'C'), (dts[0], t100, '1d', 'S', 'C', 'C'),
-               (dts[1], t1, '2d', 'F', 'F', 'C'), (dts[0], tbig, '2d', 'C', 'F', 'F'), (dts[1], t100, '2d', 'F', 'F', 'F'),
-               (dts[0], tbig, '1d', 'S', 'S', 'C'), (dts[1], tbig, '2d', 'F', 'F', 'F'), (dts[0], t1, '2d', 'F', 'F', 'F')]
-        out = [L.Variant(*e) for e in ess]
+        t1, t100, tmid, tbig = tiles_for(desc['n'])
+        ess = [(f64, t1, '1d', 'C', 'C', 'C'), (f64, tbig, '1d', 'C', 'C', 'C'), (f64, tbig, '2d', 'F', 'F', 'F'),
+               (f32, tbig, '1d', 'C', 'C', 'C'), (f64, t100, '2d', 'F', 'C', 'C'), (f64, t100, '1d', 'S', 'C', 'C'),
+               (f64, tmid, '1d', 'C', 'C', 'C'), (f32, t1, '2d', 'F', 'F', 'C'), (f64, tbig, '2d', 'C', 'F', 'F'),
+               (f32, t100, '2d', 'F', 'F', 'F'), (f64, tmid, '2d', 'F', 'F', 'C'), (f64, tbig, '1d', 'S', 'S', 'C'),
+               (f32, tbig, '2d', 'F', 'F', 'F'), (f64, t1, '2d', 'F', 'F', 'F'), (f32, tmid, '1d', 'C', 'C', 'C')]
+        ess += [(d, t, sh, lx, 'C', lw) for d in ints for t, sh, lx, lw in
+                ((t1, '1d', 'C', 'C'), (t100, '2d', 'F', 'F'), (tbig, '1d', 'C', 'C'), (t1, '2d', 'F', 'C'))]
+        out = [V(*e) for e in ess]
         for dt in dts:
-            for t in (t1, t100, tbig):
+            for t in (t1, t100, tmid, tbig):
                 for sh in ('1d', '2d'):
                     for lx in ('C', 'F', 'S'):
                         for ly in ('C', 'F', 'S'):
@@ -57,20 +72,24 @@ def variants(group, fld, desc, seed):
                                     continue
                                 e = (dt, t, sh, lx, ly, lw)
                                 if e not in ess:
-                                    rest.append(L.Variant(*e))
+                                    rest.append(V(*e))
+    elif group == 'small':
+        out = [V(dt, 1, sh, lx, lx, 'C') for dt in dts for sh, lx in (('1d', 'C'), ('2d', 'F'), ('1d', 'S'))]
     elif group == 'custom':
-        out = [L.Variant(dt, 1, sh, lx, lx, 'C') for dt in dts for sh, lx in (('1d', 'C'), ('1d', 'S'), ('2d', 'F'))]
+        out = [V(dt, 1, sh, lx, lx, 'C') for dt in dts[:2] for sh, lx in (('1d', 'C'), ('1d', 'S'), ('2d', 'F'))]
     elif group == 'discr1':
-        out = [L.Variant(dt, 1, '1d', lx, ly, 'C') for dt in dts for lx, ly in (('C', 'C'), ('S', 'C'), ('C', 'S'))]
+        out = [V(dt, 1, '1d', lx, ly, 'C') for dt in dts for lx, ly in (('C', 'C'), ('S', 'C'), ('C', 'S'))]
     elif group == 'discr2':
-        out = [L.Variant(dt, 1, '2d', lx, ly, 'C') for dt in dts
+        out = [V(dt, 1, '2d', lx, ly, 'C') for dt in dts
                for lx, ly in (('C', 'C'), ('F', 'F'), ('F', 'C'), ('S', 'F'), ('C', 'S'))]
     else:
-        out = [L.Variant(dt, 1, '1d', lx, lx, 'C', power) for dt in dts for power in (True, False)
+        out = [V(dt, 1, '1d', lx, lx, 'C', power) for dt in dts for power in (True, False)
                for lx in ('C', 'S')]
     rnd = random.Random(seed * 31 + 7)
     rnd.shuffle(rest)
-    return out + rest
+    res = out + rest
+    # secondary axes: deterministic in the list position, so that every family meets every value
+    return [v.with_(**_mix(k)) for k, v in enumerate(res)]
 
 
 def nentries(desc, var):
@@ -81,11 +100,37 @@ def nentries(desc, var):
     return desc['n']
 
 
+def _all_q(o, pred):
+    ok = [True]
+    L._walk_q(o, lambda v: ok.__setitem__(0, ok[0] and pred(v)))
+    return ok[0]
+
+
+def int_ok(case):
+    """Integer dtype: every entry, the scalar and every array weight must be an integer (true division and
+    fractional data in integer spaces follow NumPy's casting rules and are outside the claim)."""
+    def weights_int(d):
+        if d['kind'] == 'pspace':
+            return all(weights_int(s) for s in d['parts'])
+        return d['w']['k'] != 'array' or _all_q(d['w']['arr'], lambda v: v[1] == 1)
+    return _all_q([case['x'], case['y'], case['z'], case['a']], lambda v: v[1] == 1) and weights_int(case['spc'])
+
+
+def admissible(case, var, D, fld):
+    """Replace a concretisation that cannot represent the case exactly by the float64 / complex128 one."""
+    name = var.dtype.name
+    if name in ('float32', 'complex64') and not L.f32_ok(case, D, nentries(case['spc'], var)):
+        return var.with_(dtype=DTYPES[fld][0])
+    if name == 'int64' and not int_ok(case):
+        return var.with_(dtype=DTYPES[fld][0])
+    return var
+
+
 _spaces = {}
 
 
 def get_space(desc, var):
-    key = (json.dumps(desc, sort_keys=True), var.tup()[:2] + var.tup()[2:3] + (var.lay_w, var.power))
+    key = (json.dumps(desc, sort_keys=True), var.space_key())
     if key not in _spaces:
         if len(_spaces) > 3000:
             _spaces.clear()
@@ -108,15 +153,20 @@ def execute(case, var, D=None):
     return ev, info
 
 
-def signature(desc, feat, name, clause):
-    f = [t for t in ('unitvol-bdry', 'p2-no-inner') if t in feat]
-    if f:       # a cell the specification names: the family is the cell; if both apply, a call that raises
-                # belongs to the missing inner product, a wrong value to the boundary fractions
-        if len(f) == 2:
-            f = ['p2-no-inner'] if clause == 'raised' else ['unitvol-bdry']
-        return {'kind': desc['kind'], 'feature': f[0], 'clause': clause}
-    return {'kind': L.kinds(desc), 'w': desc['w']['k'], 'p': L.pclass(desc),
-            'feature': '-', 'obs': L.obs_class(name), 'clause': clause}
+def signature(desc, feat, name, clause, vkey=None):
+    f = sorted(feat)
+    if f:       # a cell the specification names: the family is the cell
+        sig = {'kind': desc['kind'], 'feature': f[0], 'clause': clause}
+    else:
+        sig = {'kind': L.kinds(desc), 'w': desc['w']['k'], 'p': L.pclass(desc),
+               'feature': '-', 'obs': L.obs_class(name), 'clause': clause}
+    if vkey is not None and np.dtype(vkey['dtype']).kind == 'i':
+        # integer spaces are their own (coarse) families: leaf kind x level x raised / wrong
+        leaf = L.kinds(desc)
+        leaf = leaf[7:-1] if leaf.startswith('pspace(') else leaf
+        sig = {'dtype': 'int', 'leaf': leaf, 'level': 'pspace' if desc['kind'] == 'pspace' else 'leaf',
+               'feature': f[0] if f else '-', 'clause': 'raised' if clause == 'raised' else 'value-or-axiom'}
+    return sig
 
 
 def compare(case, ev):
@@ -158,8 +208,7 @@ def _replay_chunk(args):
             k = counters.get(fam, seed + start)
             counters[fam] = k + 1
             var = vs[k % len(vs)]
-            if var.dtype.name in ('float32', 'complex64') and not L.f32_ok(case, D, nentries(desc, var)):
-                var = L.Variant(DTYPES[fld][0], var.tile, var.shape, var.lay_x, var.lay_y, var.lay_w, var.power)
+            var = admissible(case, var, D, fld)
             try:
                 ev, info = execute(case, var, D)
             except Exception as ex:           # cannot even set the case up: machinery, not a verdict
@@ -293,7 +342,9 @@ def _random_chunk(args):
         var = vs[rnd.randrange(len(vs))]
         if var.dtype.name in ('float32', 'complex64') and not L.f32_ok(case, D, nentries(desc, var),
                                                                        bound=L.magnitude_bound(case)):
-            var = L.Variant(DTYPES[fld][0], var.tile, var.shape, var.lay_x, var.lay_y, var.lay_w, var.power)
+            var = var.with_(dtype=DTYPES[fld][0])
+        if var.dtype.name == 'int64' and not int_ok(case):
+            var = var.with_(dtype=DTYPES[fld][0])
         try:
             ev, info = execute(case, var, D)
         except Exception as ex:
@@ -339,7 +390,7 @@ def run(ctx):
                         dict(base, SP_GROUP='tensor', SP_FLD='R', SP_ALL='1'), 8))
     exports = []
     for g in GROUPS:
-        for fld in (['RC'] if g in ('tensor', 'custom') else ['R', 'C']):      # one worker each: split the long ones
+        for fld in (['RC'] if g in ('tensor', 'custom', 'small') else ['R', 'C']):      # one worker each: split the long ones
             out = os.path.join(work, 'exp_%s_%s.ndjson' % (g, fld))
             exports.append((g, out))
             jobs.append(('export-%s-%s' % (g, fld), 'MC_Space_export.cfg',
@@ -418,7 +469,7 @@ def run(ctx):
                     tot, nb = featstat.get(fk, (0, 0))
                     featstat[fk] = (tot + 1, nb + (1 if bad else 0))
                 for name, clause in bad:
-                    report(signature(case['spc'], case['feat'], name, clause),
+                    report(signature(case['spc'], case['feat'], name, clause, vkey),
                            {'stage': 'replay', 'case': case, 'concretisation': vkey, 'observable': name,
                             'expected': case['e'][name], 'observed': ev['o'][name], 'info': info})
         nreplayed = len(vkeys)
@@ -464,7 +515,7 @@ def run(ctx):
                     raise MachineryError('trace chunk %s out of step' % p)
                 vkey = vkeys[rec['id']]
                 for clause, name in sorted(set(map(tuple, rec['bad']))):
-                    report(signature(ev['spc'], rec['feat'], name, clause),
+                    report(signature(ev['spc'], rec['feat'], name, clause, vkey),
                            {'stage': 'trace', 'case': {k: ev[k] for k in ('spc', 'pw', 'x', 'y', 'z', 'a', 'xzero')},
                             'concretisation': vkey, 'observable': name, 'observed': ev['o'], 'qn': ev['qn'],
                             'info': {'D': ev['D']}, 'tlc_clauses': rec['bad']})
